@@ -39,6 +39,12 @@ CLAIMED = {
         "write) runs on both; after every step values and written bytes must be equal, or both sides must raise.",
         "Holds on the explored region only; the eager table is the reference, so a defect common to both modes is invisible here (C02/C03 cover those). One open finding ('.' score placeholder) is excluded by a narrow bucket. Integer row access that fails inside npstructures under NumPy 2 is counted as a tolerant class.",
         "Hypothesis-generated operation programs, differential oracle (lazy vs eager)"),
+    "C06": (
+        "Exhaustive over all 256 byte values x 10 predefined alphabets x 2 input routes, plus Hypothesis strings / lists / base-encoded arrays "
+        "with one foreign character inserted anywhere, StringEncoding label lists, and all 90 ordered alphabet pairs for re-targeting and "
+        "change_encoding (contiguous arrays and row-reordered views); oracle is a Python model of each alphabet and text equality.",
+        "Holds on the explored region; the byte-level part is complete. Hash collisions of StringEncoding are out of reach of random search.",
+        "exhaustive byte enumeration + Hypothesis generation, reference-model oracle and text-preservation (metamorphic) oracle"),
     "C15": (
         "Fault injection over generated inputs: one format violation of each class is injected at every record position of a well-formed file; "
         "exhaustive over small files x every chunk size x lazy/eager x plain/gzip, sampled for larger files of nine formats. Oracle: an exception "
